@@ -1,13 +1,16 @@
 #!/bin/bash
-# Clean-tree sweep: every check, quick tier, several seeds; evidence goes to a scratch dir so the committed
-# evidence files are not touched.  usage: harness/sweep.sh "1 2 3" [parallel=4]  -> /tmp/sweep.log
+# Clean-tree sweep: every check (or the given ones), quick tier, several seeds; evidence goes to a scratch dir so the
+# committed evidence files are not touched.
+# usage: harness/sweep.sh "1 2 3" [parallel=4] ["C01 C02 …"] [logfile=/tmp/sweep.log]
 cd "$(dirname "$0")/.."
 SEEDS=${1:-"1 2 3"}; PAR=${2:-4}
-: > /tmp/sweep.log
+PROPS=${3:-$(for i in $(seq -w 1 20); do echo C$i; done)}
+LOG=${4:-/tmp/sweep.log}
+: > $LOG
 run() { s=$1; p=$2
   out=$(VERIF_SEED=$s VERIF_EVIDENCE_DIR=/tmp/sweep_evidence ./check $p --tier quick 2>&1 | grep -E "^VIOLATION|exit=|^INFRA" | tr '\n' ' ' | cut -c1-400)
-  echo "seed=$s $p: $out" >> /tmp/sweep.log; }
-for s in $SEEDS; do for i in $(seq -w 1 20); do
-  run $s C$i &
+  echo "seed=$s $p: $out" >> $LOG; }
+for s in $SEEDS; do for p in $PROPS; do
+  run $s $p &
   while [ $(jobs -r | wc -l) -ge $PAR ]; do sleep 2; done
-done; done; wait; echo SWEEPDONE >> /tmp/sweep.log
+done; done; wait; echo SWEEPDONE >> $LOG
